@@ -9,7 +9,7 @@ from vlib.core import Ob, Finding
 import mirsym as ms
 from mirsym.engine import Agg, PyVec, PyMap, PySet, Str, Ref, Opaque, Unsupported, mkstr, mkbox
 
-CRATES = ('compiler', 'common_defs', 'diagnostics', 'parser')
+CRATES = ('compiler', 'ast', 'common_defs', 'diagnostics', 'parser')
 
 # ----------------------------------------------------------------------------- O13.4
 def replay_variant(runs=40):
@@ -132,3 +132,106 @@ def obligations_c13():
 def obligations_c16():
     return [Ob('O16.3-package-allowed', 'package_allowed <=> current / Builtin / imported', ob_package_allowed, ('quick', 'thorough'), 5, {}),
             Ob('O16.4-is-local', 'is_local_nominal_type: local iff the package part equals the current package', ob_is_local, ('quick', 'thorough'), 2, {})]
+
+# ----------------------------------------------------------------------------- O16.5 load_package: every file of a directory must declare the same package
+def ob_package_decl(r, tier, seed, nfiles):
+    W = e2.fresh_world(CRATES); tt = W.tt
+    CE = tt.find_adt(['pipeline', 'pipeline', 'CompilationError'], 'compiler'); PU = tt.find_adt(['pipeline', 'packages', 'PackageUnit'], 'compiler')
+    AF = [a for a in tt.by_name['File'] if a.crate == 'ast'][0]; AI = [a for a in tt.by_name['AstIdent'] if a.crate == 'ast'][0]
+    names = ['Main', 'Lib', 'Libx']
+    r.bounds = 'a package directory with %d files (the first is the entry file when an entry is given); the package name each file declares is drawn from %s; with and without an entry file' % (nfiles, names)
+    r.assumptions = ['read_gom_sources / fs::read_to_string / parse_ast_file replaced by an environment returning files that declare the chosen package names (parsing is not part of this obligation)',
+                     'oracle: Ok(unit named N) iff every file declares N; otherwise an error that is not a parser error']
+    cur = {}
+    def path(name): return Opaque('path', name=name)
+    def astfile(pk):
+        fields = [PyVec([]) for _ in AF.variants[0].fields]
+        fields[[i for i, (fn_, _t) in enumerate(AF.variants[0].fields) if fn_ == 'package'][0]] = Agg(AI.key, 0, [mkstr(pk)])
+        return Agg(AF.key, 0, fields)
+    W.stubs['read_gom_sources'] = lambda ex, a: ms.ok(PyVec([path('f%d.gom' % i) for i in range(nfiles)]))
+    W.stubs['parse_ast_file'] = lambda ex, a: ms.ok(astfile(cur['decl'][ex.deref(a[0]).name]))
+    W.stubs['compile_error'] = lambda ex, a: Agg(CE.key, CE.vindex('Compile'), [Opaque('diagnostics')])
+    def ov(f, g):
+        if g.endswith('fs::read_to_string') or 'fs::read_to_string::<' in g:
+            def m_read(ex, f_, a): return ms.ok(mkstr('src'))
+            return m_read
+        if 'Path' in g and (g.endswith('::eq') or g.endswith('::ne')):
+            def m_path_eq(ex, f_, a):
+                x, y = ex.deref(a[0]), ex.deref(a[1])
+                while isinstance(x, Ref): x = x.get()
+                while isinstance(y, Ref): y = y.get()
+                r_ = x.name == y.name; return r_ if g.endswith('eq') else not r_
+            return m_path_eq
+        return None
+    W.overrides = [ov]
+    def entry(ex):
+        decl = {'f%d.gom' % i: ex.choose([(True, n) for n in names]) for i in range(nfiles)}; cur['decl'] = decl
+        with_entry = ex.choose([(True, True), (True, False)])
+        h = {0: path('dir'), 1: path('f0.gom')}
+        res = ex.call('load_package', [Ref(h, 0), ms.some(Ref(h, 1)) if with_entry else ms.NONE(), ms.some(astfile(decl['f0.gom'])) if with_entry else ms.NONE()], 'compiler')
+        if res.idx == 0:
+            u = res.fields[0]; f = dict(zip([x[0] for x in PU.variants[0].fields], u.fields))
+            return decl, with_entry, ('ok', ms.pystr(f['name']), len(f['files'].items))
+        return decl, with_entry, ('err', CE.variants[res.fields[0].idx].name)
+    res = e2.explore(r, W, entry, [])
+    for p in res:
+        r.cases += 1
+        if p.kind != 'ok': raise Unsupported('load_package panicked: %s' % p.value)
+        decl, with_entry, got = p.value
+        same = len(set(decl.values())) == 1
+        want = ('ok', decl['f0.gom'], nfiles) if same else ('err', 'Compile')
+        r.nontrivial += 1
+        if got != want and not r.findings:
+            r.findings.append(Finding('package-declaration-check-wrong', 'files declaring %s (entry given: %s): load_package returns %s, expected %s' % (decl, with_entry, got, want), {'decl': decl, 'entry': with_entry}, True, 'value returned by the real load_package MIR under the stated stubs'))
+    r.samples = []
+
+_obl_c16 = obligations_c16
+def obligations_c16():
+    return _obl_c16() + [Ob('O16.5-package-declarations-2', 'load_package: all files of a directory declare one package (2 files)', ob_package_decl, ('quick', 'thorough'), 2, dict(nfiles=2)),
+                         Ob('O16.5-package-declarations-3', 'same, 3 files', ob_package_decl, ('quick', 'thorough'), 5, dict(nfiles=3))]
+
+# ----------------------------------------------------------------------------- O16.6 discovery: a directory must declare the package it is imported as; the root must be Main
+def ob_discovery_names(r, tier, seed):
+    from props import pkg_ob
+    W = e2.fresh_world(CRATES)
+    CE = W.tt.find_adt(['pipeline', 'pipeline', 'CompilationError'], 'compiler')
+    names = ['Main', 'A', 'B']
+    r.bounds = 'root package importing A, A importing B (chain); the name each of the three directories declares is drawn from {Main, A, B} (solver decisions)'
+    r.assumptions = ['load_package replaced by an environment stub returning a unit with the declared name (file system and parsing are not part of this obligation)',
+                     'oracle: Ok iff the root declares Main and every imported directory declares the name it is imported as; otherwise Err']
+    cur = {}
+    def load_package_stub(ex, a):
+        dirv = ex.deref(a[0]); d = getattr(dirv, 'pkg', 'Main')
+        imps = {'Main': ['A'], 'A': ['B'], 'B': []}[d]
+        return ms.ok(pkg_ob.unit_value(W, cur['decl'][d], imps))
+    W.stubs['load_package'] = load_package_stub
+    W.stubs['compile_error'] = lambda ex, a: Agg(CE.key, CE.vindex('Compile'), [Opaque('diagnostics')])
+    def ov(f, g):
+        if g.endswith('PackageLayout>::root_package_name'):
+            def m_layout_root(ex, f_, a): return mkstr('Main')
+            return m_layout_root
+        if g.endswith('PackageLayout>::package_dir'):
+            def m_layout_dir(ex, f_, a): return Opaque('dir', pkg=pkg_ob.sval(ex.deref(a[3])))
+            return m_layout_dir
+        return None
+    W.overrides = [ov]
+    def entry(ex):
+        decl = {d: ex.choose([(True, n) for n in names]) for d in names}; cur['decl'] = decl
+        h = {0: Opaque('layout'), 1: Opaque('rootdir', pkg='Main')}
+        res = ex.call('discover_packages_with_layout', [Ref(h, 0), Ref(h, 1), ms.NONE(), ms.NONE()])
+        return decl, res.idx == 0
+    res = e2.explore(r, W, entry, [])
+    for p in res:
+        r.cases += 1
+        if p.kind != 'ok': raise Unsupported('discover_packages panicked: %s' % p.value)
+        decl, ok_ = p.value
+        # the walk stops at the first mismatch; what a mis-declared directory imports is then irrelevant
+        want = decl['Main'] == 'Main' and decl['A'] == 'A' and decl['B'] == 'B'
+        r.nontrivial += 1
+        if ok_ != want and not r.findings:
+            r.findings.append(Finding('misdeclared-package-accepted' if ok_ else 'well-declared-project-rejected', 'directories Main / A / B declare %s: discovery returns %s' % (decl, 'Ok' if ok_ else 'Err'), {'decl': decl}, True, 'value returned by the real discover_packages_with_layout MIR under the stated stubs'))
+    r.samples = []
+
+_obl_c16b = obligations_c16
+def obligations_c16():
+    return _obl_c16b() + [Ob('O16.6-discovery-declared-names', 'discovery accepts a project iff every directory declares the package it is imported as', ob_discovery_names, ('quick', 'thorough'), 3, {})]
